@@ -1,6 +1,7 @@
 package main
 
 import (
+	"os"
 	"fmt"
 	"sort"
 	"go/constant"
@@ -1644,6 +1645,24 @@ func (vc *FuncVC) unescapedAllocs(at ssa.Instruction) []ssa.Value {
 				if b, isB := c.Call.Value.(*ssa.Builtin); isB && b.Name() == "append" {
 					a = c
 				}
+			} else if ph, ok := in.(*ssa.Phi); ok {
+				// a slice variable that only ever holds slices built here (literals, make, append of itself):
+				// as long as none of those has reached other code, neither has whatever it holds now
+				if sl, isSl := ph.Type().Underlying().(*types.Slice); isSl && os.Getenv("GOVC_NOPHI") == "" && isBasicElem(sl.Elem()) {
+					if origins, ok := vc.sliceOrigins(ph); ok {
+						esc := false
+						for _, o := range origins {
+							for _, e := range vc.escapePoints(o) {
+								if e == at || vc.mayPrecede(e, at) {
+									esc = true
+								}
+							}
+						}
+						if !esc {
+							a = ph
+						}
+					}
+				}
 			}
 			if a == nil {
 				continue
@@ -1667,6 +1686,56 @@ func (vc *FuncVC) unescapedAllocs(at ssa.Instruction) []ssa.Value {
 		}
 	}
 	return out
+}
+
+func isBasicElem(t types.Type) bool {
+	_, ok := t.Underlying().(*types.Basic)
+	return ok
+}
+
+// sliceOrigins: the allocating instructions a slice-typed phi can draw its backing array from
+// (through phis, re-slicing and append of itself); ok is false when some source is not an
+// allocation of this function (a parameter, a loaded value, a call result).
+func (vc *FuncVC) sliceOrigins(ph *ssa.Phi) ([]ssa.Value, bool) {
+	var out []ssa.Value
+	seen := map[ssa.Value]bool{}
+	ok := true
+	var walk func(v ssa.Value)
+	walk = func(v ssa.Value) {
+		if seen[v] || !ok {
+			return
+		}
+		seen[v] = true
+		switch x := v.(type) {
+		case *ssa.Phi:
+			for _, e := range x.Edges {
+				walk(e)
+			}
+		case *ssa.Slice:
+			walk(x.X)
+		case *ssa.Alloc:
+			if vc.localAlloc[x] {
+				ok = false
+				return
+			}
+			out = append(out, x)
+		case *ssa.MakeSlice:
+			out = append(out, x)
+		case *ssa.Const:
+			// nil slice
+		case *ssa.Call:
+			if b, isB := x.Call.Value.(*ssa.Builtin); isB && b.Name() == "append" && len(x.Call.Args) > 0 {
+				out = append(out, x)
+				walk(x.Call.Args[0])
+				return
+			}
+			ok = false
+		default:
+			ok = false
+		}
+	}
+	walk(ph)
+	return out, ok
 }
 
 // immutableCell: a captured variable that is never assigned after the closures
